@@ -64,6 +64,8 @@ EXT_ALIASES = {
     'concurrent.futures.CancelledError': 'concurrent.futures.CancelledError',
     'concurrent.futures._base.CancelledError': 'concurrent.futures.CancelledError',
 }
+STD_CONSTS = {'concurrent.futures.FIRST_EXCEPTION': 'FIRST_EXCEPTION', 'concurrent.futures.FIRST_COMPLETED': 'FIRST_COMPLETED',
+              'concurrent.futures.ALL_COMPLETED': 'ALL_COMPLETED'}
 BUILTIN_EXC = {k for k in EXC_PARENT if '.' not in k}
 
 
@@ -323,6 +325,8 @@ class Engine:
                 return ExtClassRef(k)
         if self.registry and dotted in self.registry.ext_values:
             return self.registry.ext_values[dotted]
+        if dotted in STD_CONSTS:
+            return STD_CONSTS[dotted]
         return Builtin(dotted)
 
     # ------------------------------------------------------------------ exception classes
